@@ -299,6 +299,16 @@ func runEvalCase(c Case) (Result, string) {
 		r.Impl = "X bad-input-json"
 		return r, ""
 	}
+	for _, t := range c.Tags {
+		if t == "shared" {
+			input = shareify(input)
+			if savedVars != nil {
+				for k, v := range c.Vars {
+					c.Vars[k] = shareify(v)
+				}
+			}
+		}
+	}
 	saved := deepCopyJSON(input)
 	clock := time.Now().UnixNano() / int64(time.Millisecond)
 
@@ -375,17 +385,29 @@ func runEvalCase(c Case) (Result, string) {
 	// C10: EvalBytes agrees with Eval
 	if !o.paniced && len(c.Input) > 0 && !usesVolatile(c.Expr) {
 		bo := guarded(func() (interface{}, error) { return e.EvalBytes([]byte(c.Input)) })
+		if lastEvalBytes != nil && string(lastEvalBytes) != lastEvalBytesCopy {
+			r.Direct["evalbytes"] = "the bytes returned by an earlier EvalBytes call changed after a later call: " + trunc(lastEvalBytesCopy, 60) + " became " + trunc(string(lastEvalBytes), 60)
+			lastEvalBytes = nil
+		}
+		if b, ok := bo.value.([]byte); ok && bo.err == nil && !bo.paniced && !bo.hung {
+			lastEvalBytes, lastEvalBytesCopy = b, string(b)
+		}
+		ebFailed := r.Direct["evalbytes"] != ""
 		switch {
+		case ebFailed:
 		case bo.paniced || bo.hung:
 			r.Direct["evalbytes"] = "EvalBytes " + bo.wire
 		case o.err != nil:
-			if bo.err == nil {
+			if bo.err == nil && !usesUnordered(c.Expr) {
 				r.Direct["evalbytes"] = "EvalBytes succeeded but Eval failed"
 			} else {
 				r.Direct["evalbytes"] = "ok"
 			}
 		case bo.err != nil:
-			if r.Direct["json"] == "ok" {
+			if usesUnordered(c.Expr) {
+				// a second evaluation over differently ordered members may legitimately fail
+				r.Direct["evalbytes"] = "ok"
+			} else if r.Direct["json"] == "ok" {
 				r.Direct["evalbytes"] = "EvalBytes failed: " + bo.err.Error()
 			} else {
 				r.Direct["evalbytes"] = "ok"
@@ -515,6 +537,40 @@ func functionsAsEmptyStrings(v reflect.Value, depth int) interface{} {
 	}
 }
 
+// shareify gives a decoded document SHARED SUB-STRUCTURES (which encoding/json never produces): in every
+// object, a member "head" that equals a prefix of the member "all" becomes a sub-slice of it (same backing
+// array, spare capacity), a member "same" that equals "all" becomes the very same slice, and a member "o2"
+// that equals "o" becomes the same map instance. Values are unchanged; only identity is.
+func shareify(v interface{}) interface{} {
+	switch x := v.(type) {
+	case map[string]interface{}:
+		for k, e := range x {
+			x[k] = shareify(e)
+		}
+		if all, ok := x["all"].([]interface{}); ok {
+			if head, ok := x["head"].([]interface{}); ok && len(head) <= len(all) && reflect.DeepEqual(head, all[:len(head)]) {
+				x["head"] = all[:len(head)]
+			}
+			if same, ok := x["same"].([]interface{}); ok && reflect.DeepEqual(same, all) {
+				x["same"] = all
+			}
+		}
+		if o, ok := x["o"].(map[string]interface{}); ok {
+			if o2, ok := x["o2"].(map[string]interface{}); ok && reflect.DeepEqual(o, o2) {
+				x["o2"] = o
+			}
+		}
+		return x
+	case []interface{}:
+		for i, e := range x {
+			x[i] = shareify(e)
+		}
+		return x
+	default:
+		return v
+	}
+}
+
 // modelSource: registered variables are bound by a block around the expression on the model side
 // (a JSON text is an expression that denotes itself)
 func modelSource(c Case) string {
@@ -535,6 +591,10 @@ func modelSource(c Case) string {
 	sb.WriteString(c.Expr + ")")
 	return sb.String()
 }
+
+// the most recent EvalBytes result (the slice itself) and a copy of what it held when it was returned
+var lastEvalBytes []byte
+var lastEvalBytesCopy string
 
 // ---- oracle ----
 var reCache = map[string]*regexp.Regexp{}
